@@ -106,4 +106,17 @@ CHECKS = {
   'note': TB,
   'technique': 'Coq theorems over translated address analysis + cache protocol under any schedule; hook-based slot/owner correspondence in race and !race builds',
  },
+ 'C10': {
+  'text': ("Proof (Coq): (1) the load/compile/publish protocol of the per-type caches (address-indexed slice and copy-on-write map; lookups TRANSLATED from the "
+           "source) for any number of goroutines and EVERY schedule, cold start included: each call runs exactly the program a call made alone would run, in the "
+           "race and the !race variant; (2) the pooled RuntimeContext: a translator analysis of every function that takes a context (12 today) shows nothing that "
+           "may alias the context is used after its release or returned, and under that discipline every call reads back its own data under EVERY schedule "
+           "(a release before the last use is refuted with a concrete schedule). Observed: G in 2..64 goroutines x GOMAXPROCS 1..16 run Marshal, MarshalIndent, "
+           "Encoder, Unmarshal, Decoder, Compact, Indent, Valid, MarshalContext with shared and goroutine-local FieldQueries and a shared Path over batches of types no "
+           "goroutine has used before the start barrier; every result is compared with the single-threaded oracle; the same program runs in the race build where every "
+           "race-detector report with a frame inside the library is a violation; a watchdog reports deadlocks with the blocked stacks. Partial: steps are sequentially "
+           "consistent (the unsynchronised publish of the !race build relies on the hardware memory model, which is not modelled); real interleavings are sampled."),
+  'note': TB,
+  'technique': 'Coq any-schedule theorems (cache publish protocol, pooled-context discipline from translator analysis) + concurrent differential harness in race and !race builds',
+ },
 }
